@@ -107,7 +107,7 @@ OPS_ANY = ['etag-mismatch', 'drop-etag', 'drop-stag', 'two-roots', 'text-after-r
            'recursive-entity', 'recursive-entity-indirect', 'ext-entity-in-attr', 'unparsed-entity-in-content', 'entity-unbalanced', 'lt-via-entity-in-attr',
            'pe-in-decl-internal', 'etag-with-attr', 'nested-doctype', 'doctype-after-root', 'amp-in-entity-value', 'attr-unquoted']
 OPS_NS = ['ns-unbound-elem', 'ns-unbound-attr', 'ns-xml-rebind', 'ns-xmlns-prefix', 'ns-empty-prefix-decl', 'ns-two-colons', 'ns-leading-colon',
-          'ns-trailing-colon', 'ns-dup-expanded-attr', 'ns-bind-to-xmlns-uri', 'ns-pi-target-colon']
+          'ns-trailing-colon', 'ns-dup-expanded-attr', 'ns-bind-to-xmlns-uri', 'ns-bind-other-to-xml-uri', 'ns-default-xmlns-uri', 'ns-pi-target-colon']
 OPS_BYTES = ['utf8-c0-80', 'utf8-surrogate', 'utf8-f4-90', 'utf8-lone-cont', 'utf8-5byte', 'utf8-trunc-mid', 'utf8-trunc-eof', 'utf8-fe', 'utf8-overlong-e0']
 # operators that remain single-constraint violations under XML 1.1 as well (1.1 has no second witness, keep to clear-cut ones)
 OPS_V11 = {'etag-mismatch', 'drop-etag', 'two-roots', 'text-after-root', 'cdata-after-root', 'dup-attr', 'missing-eq', 'no-ws-attrs', 'lt-in-attr',
@@ -276,11 +276,13 @@ def mutate(text, d, op, k):
     if op == 'ns-unbound-attr':
         t = toks[r0]; m = re.match(r'<[^\s/>]+', text[t[1]:t[2]])
         return ins(t[1] + m.end(), ' zzp:a="1"')
-    if op in ('ns-xml-rebind', 'ns-xmlns-prefix', 'ns-empty-prefix-decl', 'ns-bind-to-xmlns-uri', 'ns-dup-expanded-attr'):
+    if op in ('ns-xml-rebind', 'ns-xmlns-prefix', 'ns-empty-prefix-decl', 'ns-bind-to-xmlns-uri', 'ns-dup-expanded-attr', 'ns-bind-other-to-xml-uri', 'ns-default-xmlns-uri'):
         t = toks[r0]; m = re.match(r'<[^\s/>]+', text[t[1]:t[2]])
         add = {'ns-xml-rebind': ' xmlns:xml="urn:not-xml"', 'ns-xmlns-prefix': ' xmlns:xmlns="urn:x"',
                'ns-empty-prefix-decl': ' xmlns:zzq=""', 'ns-bind-to-xmlns-uri': ' xmlns:zzq="http://www.w3.org/2000/xmlns/"',
-               'ns-dup-expanded-attr': ' xmlns:zz1="urn:zz" xmlns:zz2="urn:zz" zz1:a="1" zz2:a="2"'}[op]
+               'ns-dup-expanded-attr': ' xmlns:zz1="urn:zz" xmlns:zz2="urn:zz" zz1:a="1" zz2:a="2"',
+               'ns-bind-other-to-xml-uri': ' xmlns:zzq="http://www.w3.org/XML/1998/namespace"',
+               'ns-default-xmlns-uri': ' xmlns="http://www.w3.org/2000/xmlns/"'}[op]
         return ins(t[1] + m.end(), add)
     if op == 'ns-two-colons': return content_insert('<a:b:c xmlns:a="urn:a"/>')
     if op == 'ns-leading-colon': return content_insert('<:a/>')
